@@ -242,10 +242,10 @@ def rmat(r, n, kind):
 def inv_cases(r, tier, add):
     quick = tier == "quick"
     kinds = ["generic", "generic", "int", "perm", "ties", "negbig", "rank1", "duprow", "zerocol"]
-    bmax_s = 4 if quick else 6
+    bmax_s = 6
     N = 500 if quick else 5000
     for it in range(N):
-        n = r.choice([1, 2, 2, 3, 3, 4, 4] + ([] if quick else [5, 6]))
+        n = r.choice([1, 2, 2, 3, 3, 4, 4, 5, 6] if quick else [1, 2, 2, 3, 3, 4, 4, 5, 5, 6, 6])
         a = rmat(r, n, r.choice(kinds))
         junk = [gen.rq(r) for _ in range(n * n)]
         add("inv", "%d %s %s" % (n, fmt_vec(a), fmt_vec(junk)))
@@ -259,7 +259,7 @@ def inv_cases(r, tier, add):
 
 def sm_cases(r, tier, add):
     N = 150 if tier == "quick" else 1500
-    bs = [1, 2, 3, 4] if tier == "quick" else [1, 2, 3, 4, 5, 6]
+    bs = [1, 2, 3, 4, 5, 6]
     for it in range(N):
         b = r.choice(bs)
         A = lambda: fmt_vec([gen.rq(r) for _ in range(b * b)])
@@ -274,6 +274,13 @@ def sm_cases(r, tier, add):
         add("sm", "%d iszero %s" % (b, fmt_vec([F(0)] * (b * b)) if it % 3 == 0 else A()))
         add("sm", "%d id" % b); add("sm", "%d zero" % b)
         add("smident", "%d %s %s %s %s" % (b, A(), A(), A(), fmt_q(gen.rq(r))))
+        R = lambda k: fmt_vec([gen.rq(r) for _ in range(k)])
+        N_, K_, M_ = r.choice([(2, 3, 2), (3, 2, 4), (1, 3, 2), (2, 1, 3), (3, 4, 3), (4, 2, 1)])
+        add("smr", "mul %d %d %d %s %s" % (N_, K_, M_, R(N_ * K_), R(K_ * M_)))
+        N_, M_ = r.choice([(2, 3), (3, 2), (1, 4), (3, 4)])
+        add("smr", "adj %d 0 %d %s" % (N_, M_, R(N_ * M_)))
+        N_, M_ = r.choice([(3, 2), (2, 3), (4, 2)])
+        add("smr", "inner %d 0 %d %s %s" % (N_, M_, R(N_ * M_), R(N_ * M_)))
 
 def dense(r, m, n, kind, dy=False):
     q = (lambda nz=False: dyq(r, nz)) if dy else (lambda nz=False: gen.rq(r, nz))
@@ -318,6 +325,8 @@ def qr_cases(r, tier, add, exact):
                 meta=dict(a=a, kind=kind))
         b = [dyq(r) if not exact else gen.rq(r) for _ in range(m)]
         add(pfx + "qrsolve", "%d %d %d %s %s" % (order, m, n, fmt_vec(flat(a, order)), fmt_vec(b)), meta=dict(a=a, b=b, kind=kind))
+        if m >= n:
+            add(pfx + "qrsolvec", "%d %d %d %s %s" % (order, m, n, fmt_vec(flat(a, order)), fmt_vec(b)), meta=dict(a=a, b=b, kind=kind))
 
 def dbl_cases(r, tier, add):
     quick = tier == "quick"
@@ -458,7 +467,7 @@ def check_dsky(line, out, meta):
         if abs(ax[i] - f[i]) > TOL * sc: return "|A x - b| in row %d = %.3e" % (i, float(abs(ax[i] - f[i])))
     return None
 
-DCHECK = {"d.qr": check_dqr, "d.qr2": check_dqr, "d.qrsolve": check_dqrsolve, "d.inv": check_dinv, "d.sky": check_dsky}
+DCHECK = {"d.qr": check_dqr, "d.qr2": check_dqr, "d.qrsolve": check_dqrsolve, "d.qrsolvec": check_dqrsolve, "d.inv": check_dinv, "d.sky": check_dsky}
 
 # ------------------------------------------------------------------ run
 def crs_of_line(tok, p):
@@ -488,12 +497,28 @@ def run(ctx, cases_override=None):
     # 1. exact correspondence
     # one driver run per op family: a crash (memory corruption) in one kernel does not take the others down
     FAM = {"sky": "Direct.v", "sky_t": "Direct.v", "cm": "CuthillMcKee.v", "inv": "Inverse.v", "sminv": "Inverse.v/StaticMat.v",
-           "sm": "StaticMat.v", "smident": "StaticMat.v", "qr": "Qr.v", "qr2": "Qr.v", "qrsolve": "Qr.v"}
+           "sm": "StaticMat.v", "smident": "StaticMat.v", "qr": "Qr.v", "qr2": "Qr.v", "qrsolve": "Qr.v", "qrsolvec": "Qr.v", "smr": "StaticMat.v"}
     impl = {}; model = {}
     for fam in sorted(set(FAM.values())):
         sub = [l for l in exact if FAM.get(l.split(" ", 2)[1]) == fam]
         if not sub: continue
         f, i_, m_ = diff_run(ctx, "direct", sub, shards=16)
+        # a crash (e.g. memory corruption under a defect) loses the rest of its shard: re-run the unanswered cases
+        for _round in range(80):
+            missing = [l for l in sub if i_.get(l.split(" ", 1)[0]) is None]
+            if not missing: break
+            more = ctx["run_driver"](ctx["cpp"]["direct"], missing, shards=min(64, len(missing)))
+            if not more: break
+            i_.update(more)
+        f = [x for x in f if x["impl"] is not None]
+        known = set(x["case"].split(" ", 1)[0] for x in f)
+        for l in sub:
+            cid, op = l.split(" ", 2)[:2]
+            if cid in known: continue
+            a, b = i_.get(cid), m_.get(cid)
+            if a != b:
+                f.append(dict(kind="counterexample", case=l, impl=a, model=b, op=op, size=len(l), env=None,
+                              theorem="correspondence"))
         impl.update(i_); model.update(m_)
         for x in f:
             x["theorem"] = "correspondence drv_direct (%s) vs Coq model %s" % (x["op"], fam)
@@ -507,6 +532,12 @@ def run(ctx, cases_override=None):
 
     # implementation-only ops
     impl2 = ctx["run_driver"](ctx["cpp"]["direct"], implonly, shards=16) if implonly else {}
+    for _round in range(80):
+        missing = [l for l in implonly if impl2.get(l.split(" ", 1)[0]) is None]
+        if not missing: break
+        more = ctx["run_driver"](ctx["cpp"]["direct"], missing, shards=min(64, len(missing)))
+        if not more: break
+        impl2.update(more)
     account(ctx, implonly, impl2)
 
     for l in exact + implonly:
